@@ -29,15 +29,10 @@ EXPLANATION = (
 
 # whole-Tds replacements that are not snapshot restores (REPLACE table).  Keyed by the function
 # (never a line); each needs a reason.
-REPLACE_TABLE = {
-    'core::triangulation::Triangulation::try_insert_impl':
-        'bootstrap: `self.tds = new_tds` installs the initial simplex when the D+1-th vertex arrives; '
-        'before it there are no cells, so no non-empty hull can have been created '
-        '(ConvexHull::from_triangulation rejects a triangulation without cells)',
-    'core::delaunay_triangulation::DelaunayTriangulation::repair_delaunay_with_flips_advanced':
-        'heuristic rebuild: `*self = candidate` installs a rebuilt triangulation with a FRESH counter; '
-        'staleness then relies on the two counts differing (open item F9 in DESIGN.md, no witness)',
-}
+REPLACE_TABLE = {}
+
+# A rebuilt Tds that replaces the Tds of a live triangulation must continue its generation counter
+GEN_INHERIT = 'core::triangulation_data_structure::Tds::inherit_generation_from'
 
 CORRELATED = {
     # external slot-map / hash-map `remove`: returns None iff the key was absent and then changes
@@ -77,6 +72,20 @@ def run(ctx):
 
 # ------------------------------------------------------------------------------------------ PAIR
 
+class GenEngine(pair.PairEngine):
+    """B also = `new_tds.inherit_generation_from(&old_tds)` where old_tds is the resource's Tds:
+    the replacement keeps counting on the shared counter (and bumps it)."""
+
+    def extra_block_events(self, q, r, body, al, blk):
+        t = blk.term
+        if t.k == 'call' and (t.resolved or t.callee) == GEN_INHERIT and len(t.args) >= 2:
+            tt = al.operand_target(t.args[1])
+            tp = self.R.tds_path(r)
+            if tt is not None and tp is not None and tt[0] == r['root'] and tt[1] == tp:
+                return [('b', t.line)]
+        return []
+
+
 def entry_set(prog, res):
     """Exported functions holding a mutable Triangulation / DelaunayTriangulation resource."""
     out = []
@@ -94,10 +103,12 @@ def entry_set(prog, res):
 
 def _pair(ctx, cfg, prog, mod):
     res = pair.Resources(prog, mod)
-    eng = pair.PairEngine(prog, mod, res, m_pred=m_pred, correlated=CORRELATED, replace_table=REPLACE_TABLE)
+    ctx.anchor(cfg, GEN_INHERIT)
+    eng = GenEngine(prog, mod, res, m_pred=m_pred, correlated=CORRELATED, replace_table=REPLACE_TABLE)
     eng.solve()
     E = entry_set(prog, res)
     ctx.floor('C11 entry set E (exported &mut ops on Triangulation/DelaunayTriangulation)', 20, len(E), cfg)
+    ctx.note('MONO: the only non-fetch_add write to Tds.generation is inherit_generation_from, which installs the *previous* Tds counter (Arc::clone) and bumps it')
     # bump sites: bodies that directly perform the primitive
     bump_bodies = set()
     for (q, i), ev in eng.trace.items():
@@ -125,7 +136,7 @@ def _pair(ctx, cfg, prog, mod):
         ctx.ob('PAIR', q, cfg, ok, detail, nontrivial=nontrivial, site='%s:%d' % (b.file, b.line))
         if nontrivial and cfg == ctx.cfgs[0]:
             ctx.sample({'rule': 'PAIR', 'function': q, 'outcomes_mutated_bumped': sorted(summ)})
-    # REPLACE obligations
+    # REPLACE obligations: a non-snapshot whole-Tds replacement must continue the counter
     seen = set()
     for (owner, line, classified) in eng.replace_sites:
         if owner in seen:
@@ -133,17 +144,13 @@ def _pair(ctx, cfg, prog, mod):
         seen.add(owner)
         b = prog.bodies.get(owner)
         site = '%s:%d' % (b.file, line) if b else None
-        if classified:
-            ctx.ob('REPLACE', owner, cfg, False, 'whole-Tds replacement from a value that is not a snapshot of the '
-                   'same triangulation', assumed=REPLACE_TABLE[owner], site=site)
-        else:
-            ctx.ob('REPLACE', owner, cfg, False,
-                   'whole-Tds (or whole-receiver) replacement from a value that is not an entry snapshot, and the '
-                   'function has no REPLACE table entry: the new Tds carries a different generation counter, so a '
-                   'hull created earlier can compare equal', site=site)
-    for owner in REPLACE_TABLE:
-        if owner not in prog.bodies:
-            ctx.ob('ANCHOR', 'missing|' + owner, cfg, False, 'REPLACE table names a function that no longer exists')
+        bodies = [b] + [prog.bodies[c] for c in prog.children.get(owner, []) if c in prog.bodies] if b else []
+        inherits = sum(1 for bd in bodies for _, t in bd.calls() if (t.resolved or t.callee) == GEN_INHERIT)
+        ctx.ob('REPLACE', owner, cfg, inherits > 0,
+               'whole-Tds (or whole-receiver) replacement by a rebuilt value; generation counter continued through '
+               'Tds::inherit_generation_from: %s' % ('yes (%d call(s)); path pairing is decided by PAIR' % inherits if inherits else
+               'NO — the new Tds carries a fresh counter, so a hull created earlier can compare equal'), site=site)
+    ctx.floor('whole-Tds replacement sites', 2, len(seen), cfg)
 
 
 # ------------------------------------------------------------------------------------------ GATE
@@ -393,11 +400,12 @@ def _mono(ctx, cfg, prog, mod):
     n = 0
     for (q, how, line) in writers:
         b = prog.bodies[q]
-        ok = how in ('fetch_add',)
+        ok = how in ('fetch_add',) or (q == GEN_INHERIT and how == 'assign')
         n += 1
         ctx.ob('MONO', '%s|%s' % (q, how), cfg, ok,
                'Tds.generation touched by `%s` in %s' % (how, q), site='%s:%d' % (b.file, line))
     ctx.floor('writers of Tds.generation (fetch_add)', 1, len([w for w in writers if w[1] == 'fetch_add']), cfg)
+    clone_impl_seen = []
     # constructions of Tds aggregates must create the counter with Arc::new (checked: the
     # aggregate's generation operand comes from a call to Arc::new or a clone of another counter)
     for q, b in prog.bodies.items():
@@ -414,9 +422,19 @@ def _mono(ctx, cfg, prog, mod):
                     srcs = valueflow.sources(b, al, o.place.local) if o.place is not None else []
                     names = {(l[1].resolved or l[1].callee or '').rsplit('::', 1)[-1] for l in srcs if l[0] == 'call'}
                     ok = bool(names & {'new', 'clone', 'default'}) and not (names & {'store', 'swap'})
-                    ctx.ob('MONO', '%s|construct' % q, cfg, ok,
-                           'Tds constructed in %s with generation from %s' % (q, sorted(names)),
-                           site='%s:%d' % (b.file, s.line))
+                    detail = 'Tds constructed in %s with generation from %s' % (q, sorted(names))
+                    if (b.impl_trait or '').endswith('Clone'):
+                        # snapshots are clones: a rolled-back operation must leave the *shared*
+                        # counter bumped, so Clone must share the Arc, not start a new counter
+                        shares = 'clone' in names and 'new' not in names
+                        ok = ok and shares
+                        detail = 'Clone for Tds %s the generation counter with the original (sources: %s)%s' % (
+                            'shares' if shares else 'does NOT share', sorted(names),
+                            '' if shares else ': restoring a snapshot rewinds the counter, so a hull taken before a '
+                            'failed, rolled-back operation no longer reports staleness')
+                        clone_impl_seen.append(q)
+                    ctx.ob('MONO', '%s|construct' % q, cfg, ok, detail, site='%s:%d' % (b.file, s.line))
+    ctx.floor('Clone impl of Tds examined (snapshots share the counter)', 1, len(clone_impl_seen), cfg)
 
 
 def _is_tds_path(b, root, fields):
